@@ -18,7 +18,12 @@ from .c07_storage import LAYOUT, kconfig_text
 
 NAMES = [("nordicsemi.com", "nRF54H20_sample_app"), ("ACME Corp", "Light bulb v2"), ("", ""), ("a", ""), ("", "b"),
          ("zażółć.example", "gęślą-jaźń"), ("日本語", "クラス"), ("v" * 300, "c" * 300), ("key=value", "a = b"),
-         (" leading", "trailing "), ("\ttab", "nbsp\u00a0"), ("  ", " "), ("line\u2028sep", "nel\u0085name"), ("form\x0cfeed", "para\u2029graph"), ("UPPER.example", "upper.example"), ("y", "n"), ("0x10", "123"), ("#hash", "semi;colon")]
+         (" leading", "trailing "), ("\ttab", "nbsp\u00a0"), ("  ", " "), ("line\u2028sep", "nel\u0085name"), ("form\x0cfeed", "para\u2029graph"), ("UPPER.example", "upper.example"), ("y", "n"), ("0x10", "123"), ("#hash", "semi;colon"),
+         # pairs whose CONCATENATIONS coincide (with '.', '', ' ', '/', ':', '-', '_', ',' between class and vendor, either order): the
+         # identifier is a function of the PAIR, and of nothing an earlier derivation in the same process left behind
+         ("example.com", "app.dev"), ("dev.example.com", "app"), ("app.dev.example.com", "bootloader"), ("com", "app.dev.example"),
+         ("ab", "c"), ("a", "bc"), ("abc", "x"), ("a b", "c"), ("a", "b c"), ("a/b", "c"), ("a", "b/c"), ("a:b", "c"), ("a", "b:c"),
+         ("a-b", "c"), ("a", "b-c"), ("a_b", "c"), ("a", "b_c"), ("a,b", "c"), ("a", "b,c"), ("c", "a.b"), ("b.c", "a")]
 OBS_NAMES = [('quo"te', 'back\\slash')]
 PAIRS = {"dRoot": ("nordicsemi.com", "nRF54H20_sample_root"), "dApp": ("nordicsemi.com", "nRF54H20_sample_app"),
          "dRad": ("nordicsemi.com", "nRF54H20_sample_rad"), "cA": ("ACME Corp", "acme app"),
